@@ -103,15 +103,13 @@ func dedupLoop(configArgs map[string]string, w *fsnotify.Watcher, completedChann
 		defer regenerateMutex.Unlock()
 
 		dirsToWatch := generateInWatchMode(configArgs)
-		if dirsToWatch != nil && len(dirsToWatch) > len(w.WatchList()) {
-			for _, dir := range dirsToWatch {
-				if err := w.Add(dir); err != nil {
-					completedChannel <- err
-					return
-				}
+		for _, dir := range dirsToWatch {
+			// adding a directory that is already watched is a no-op
+			if err := w.Add(dir); err != nil {
+				completedChannel <- err
+				return
 			}
 		}
-
 	}
 
 	regenerate()
